@@ -1,13 +1,13 @@
 SPECIFICATION MCSpec
 CONSTANTS N = 3
  V = 2
- DropVerify = "attestation"
+ DropVerify = "none"
  SkipPropMatch = FALSE
  SkipGater = FALSE
  UseSenderIdx = FALSE
- SwapEpochFor = "none"
+ SwapEpochFor = "attestation"
  SignedGater = FALSE
  InnerProofPolicy = "reject"
  VCBatchPolicy = "none"
-INVARIANTS TypeOK OnlyValidEnter ValidEnters PeerAllOrNothing
+INVARIANTS OnlyValidEnter
 CHECK_DEADLOCK FALSE
